@@ -830,7 +830,10 @@ func hsInjectionsWereLate(w *World, sc *HsScenario, d *hsDialResult) bool {
 					}
 				}
 				if len(rec.Pkts) == 1 && rec.Pkts[0].Type == TapVN && !rec.Damaged && len(rec.Delivered) > 0 && rec.Delivered[0] < at &&
-					cInit != nil && bytes.Equal(rec.Pkts[0].DCID, cInit.SCID) && bytes.Equal(rec.Pkts[0].SCID, cInit.DCID) {
+					cInit != nil && bytes.Equal(rec.Pkts[0].DCID, cInit.SCID) && bytes.Equal(rec.Pkts[0].SCID, cInit.DCID) &&
+					!hsVNLists(w.rawDatagram(1, rec.Ord), cInit.Version) {
+					// (and one that lists the version the client is using is discarded as well, RFC 9000 6.2: the server only
+					// sent it because the version field of the Initial was damaged on the way)
 					acked = true
 					res0 := w.Res
 					res0.Probe("forged-vn-after-genuine-vn")
@@ -872,6 +875,25 @@ func hsInjectionsWereLate(w *World, sc *HsScenario, d *hsDialResult) bool {
 		}
 	}
 	return true
+}
+
+// hsVNLists: does the Version Negotiation packet list version v? (nil / unparsable: treated as listing it, i.e. not processed)
+func hsVNLists(d []byte, v uint32) bool {
+	if len(d) < 7 {
+		return true
+	}
+	q := 5
+	q += 1 + int(d[q])
+	if q >= len(d) {
+		return true
+	}
+	q += 1 + int(d[q])
+	for ; q+4 <= len(d); q += 4 {
+		if binary.BigEndian.Uint32(d[q:]) == v {
+			return true
+		}
+	}
+	return false
 }
 
 func hsInject(w *World, sc *HsScenario, in WInject, res *KResult) {
